@@ -390,6 +390,8 @@ func init() {
 						c.Fail("rt-decode-refused:many-lists-side-by-side", desc, "a message at most 4 lists deep is refused")
 					case !bytes.Equal(d.ToBytes(), b):
 						c.Fail("rt-reencode-differs:many-lists-side-by-side", desc, "decoded message re-encodes differently")
+					case d.Type() != "data message":
+						c.Fail("rt-item-differs:many-lists-side-by-side", desc, "decoded as "+d.Type())
 					case body(d.(*ast.DataMessage).String()) != body(msg.String()):
 						c.Fail("rt-item-differs:many-lists-side-by-side", desc, "decoded item prints differently")
 					}
